@@ -8,7 +8,7 @@ from props_config import PROPS, MANIFEST_TEXT, NOT_APPLICABLE
 ids = [json.loads(l)["id"] for l in open(os.path.join(ROOT, "properties.jsonl"))]
 checks = []
 for pid in ids:
-    if pid not in PROPS:
+    if pid not in PROPS or pid not in MANIFEST_TEXT:
         continue
     t = MANIFEST_TEXT[pid]
     checks.append({
@@ -38,7 +38,7 @@ man = {
         "kind_free_text": "Coq 8.16.1 development: executable Gallina model of the engine (partly regenerated from /repo by tools/go2coq on every run), theorems in coq/props, correspondence harness tools/harness comparing model and implementation on generated cases via vm_compute",
     }],
     "checks": checks,
-    "not_applicable": [{"property_id": p, "reason": NOT_APPLICABLE.get(p, "not yet covered by the Coq development (work in progress, see DESIGN.md §10)")} for p in ids if p not in PROPS],
+    "not_applicable": [{"property_id": p, "reason": NOT_APPLICABLE.get(p, "not yet covered by the Coq development (work in progress, see DESIGN.md §10)")} for p in ids if p not in PROPS or p not in MANIFEST_TEXT],
     "notes": "All checks share one driver (./check) and one Coq build directory (flock-serialised). fix: commits in /repo are listed in known_findings.json under 'fixed'.",
 }
 json.dump(man, open(os.path.join(ROOT, "MANIFEST.json"), "w"), indent=1)
